@@ -38,7 +38,9 @@ enum Op {
     CloseInit,
     Unwind,
     Read { bs: Vec<u8>, ks: Vec<usize> },
-    ReadClose { bs: Vec<u8> },
+    ReadClose { bs: Vec<u8>, claim: usize },
+    OverAdvance { n: usize },
+    Touch { ks: Vec<usize> },
     Final,
 }
 
@@ -86,7 +88,9 @@ fn parse_op(a: &Value) -> Op {
         "closeinit" => Op::CloseInit,
         "unwind" => Op::Unwind,
         "read" => Op::Read { bs: bytes_of(&a["bs"]), ks: usizes_of(&a["ks"]) },
-        "readclose" => Op::ReadClose { bs: bytes_of(&a["bs"]) },
+        "readclose" => Op::ReadClose { bs: bytes_of(&a["bs"]), claim: a["claim"].as_u64().unwrap_or(0) as usize },
+        "overadvance" => Op::OverAdvance { n: a["n"].as_u64().unwrap_or(0) as usize },
+        "touch" => Op::Touch { ks: usizes_of(&a["ks"]) },
         "final" => Op::Final,
         other => panic!("harness: unknown act {:?}", other),
     }
@@ -104,7 +108,9 @@ fn act_of(op: &Op) -> Value {
         Op::CloseInit => json!({"a":"closeinit"}),
         Op::Unwind => json!({"a":"unwind"}),
         Op::Read { bs, ks } => json!({"a":"read","bs":bs,"ks":ks}),
-        Op::ReadClose { bs } => json!({"a":"readclose","bs":bs}),
+        Op::ReadClose { bs, claim } => json!({"a":"readclose","bs":bs,"claim":claim}),
+        Op::OverAdvance { n } => json!({"a":"overadvance","n":n}),
+        Op::Touch { ks } => json!({"a":"touch","ks":ks}),
         Op::Final => json!({"a":"final"}),
     }
 }
@@ -187,6 +193,9 @@ impl Source {
                         }
                         *left -= 1;
                         let ks = rand_chain(rng, owner_spare);
+                        if rng.gen_range(0..12) == 0 {
+                            return Some(Op::Touch { ks });
+                        }
                         if rng.gen_range(0..5) == 0 {
                             let n = rand_len(rng, owner_spare, true);
                             Some(Op::Read { bs: rand_bytes(rng, n), ks })
@@ -206,10 +215,15 @@ impl Source {
                             8 | 9 => Op::Advance { bs: { let n = rand_len(rng, rem, false).min(rem); rand_bytes(rng, n) } },
                             10 => Op::Scribble { bs: { let n = rand_len(rng, rem, false).min(rem); rand_bytes(rng, n) } },
                             11..=13 if depth < cfg.maxdepth => Op::Open { ks: rand_chain(rng, rem) },
-                            15 => Op::ReadClose { bs: { let n = rand_len(rng, rem, true).max(1); rand_bytes(rng, n) } },
+                            15 => Op::ReadClose { bs: { let n = rand_len(rng, rem, true).max(1); rand_bytes(rng, n) }, claim: 0 },
                             14 => Op::Read { bs: { let n = rand_len(rng, rem, true); rand_bytes(rng, n) }, ks: rand_chain(rng, rem) },
                             16 => Op::CloseInit,
-                            17 => Op::Unwind,
+                            17 => match rng.gen_range(0..4) {
+                                0 => Op::Unwind,
+                                1 => Op::OverAdvance { n: rem + 1 + rng.gen_range(0..3) },
+                                2 => Op::ReadClose { bs: { let n = rng.gen_range(0..=rem.min(8)); rand_bytes(rng, n) }, claim: rem + 1 + rng.gen_range(0..3) },
+                                _ => Op::Touch { ks: rand_chain(rng, rem) },
+                            },
                             18 => Op::Close,
                             _ => Op::Write { bs: { let n = rng.gen_range(0..=rem.min(16)); rand_bytes(rng, n) } },
                         })
@@ -265,6 +279,8 @@ struct Cx {
     /// lite mode (used under Miri): no JSON is built; observations are folded into `sum`
     lite: bool,
     sum: u64,
+    /// a refusal (assertion) of the call in progress is the specified outcome; it unwinds like `unwind`
+    refusal_expected: bool,
     events: Vec<(Value, Value)>,
     current: Option<Value>, // act whose library call is in progress (for panics)
     unwinding: Option<usize>, // index of the event of an `unwind` op in progress
@@ -272,7 +288,7 @@ struct Cx {
 
 impl Cx {
     fn new(src: Source, lite: bool) -> Cx {
-        Cx { src, lite, sum: 0xcbf29ce484222325, events: Vec::new(), current: None, unwinding: None }
+        Cx { src, lite, sum: 0xcbf29ce484222325, refusal_expected: false, events: Vec::new(), current: None, unwinding: None }
     }
     fn fold_u(&mut self, x: u64) {
         self.sum = (self.sum ^ x).wrapping_mul(0x100000001b3);
@@ -299,6 +315,12 @@ impl Cx {
             self.events.push((act, o.to_json()));
         }
         self.events.len() - 1
+    }
+    fn patch_r(&mut self, i: usize, r: &str) {
+        if self.lite { self.fold_u(r.len() as u64); } else { self.events[i].1["r"] = json!(r); }
+    }
+    fn patch_data(&mut self, i: usize, d: Vec<u8>) {
+        if self.lite { self.fold_bytes(&d); } else { self.events[i].1["data"] = json!(d); }
     }
     fn patch_rem(&mut self, i: usize, rem: usize) {
         if self.lite { self.fold_u(rem as u64); } else { self.events[i].1["rem"] = json!(rem); }
@@ -332,6 +354,29 @@ macro_rules! with_chain {
             _ => panic!("harness: cap_at chain too long"),
         }
     }};
+}
+macro_rules! touch_chain {
+    ($buf:expr, $ks:expr) => {{
+        let ks: &[usize] = $ks;
+        match ks.len() {
+            0 => drop($buf.to_to_buffer_ref()),
+            1 => drop($buf.cap_at(ks[0]).to_to_buffer_ref()),
+            2 => drop($buf.cap_at(ks[0]).cap_at(ks[1]).to_to_buffer_ref()),
+            _ => panic!("harness: cap_at chain too long"),
+        }
+    }};
+}
+/// A reader that stores what fits but reports `claim` bytes.
+struct OverReader<'a> {
+    data: &'a [u8],
+    claim: usize,
+}
+impl<'a> std::io::Read for OverReader<'a> {
+    fn read(&mut self, buf: &mut [u8]) -> std::io::Result<usize> {
+        let n = self.data.len().min(buf.len());
+        buf[..n].copy_from_slice(&self.data[..n]);
+        Ok(self.claim)
+    }
 }
 macro_rules! read_chain {
     ($rd:expr, $buf:expr, $ks:expr) => {{
@@ -406,7 +451,26 @@ fn run_view<'d, 's>(mut b: BufferRef<'d, 's>, cx: &mut Cx, open_act: Value, dept
                 };
                 cx.push(act, Out::ok().data(data).rem(b.remaining()));
             }
-            Op::ReadClose { bs } => {
+            Op::ReadClose { bs, claim } if claim > 0 => {
+                // a reader that reports more than what is left: read_buffer_ref must refuse (it asserts);
+                // the refusal unwinds through every open view
+                let i = cx.push(act, Out { r: "refused", ..Default::default() });
+                cx.unwinding = Some(i);
+                cx.refusal_expected = true;
+                let mut rd = OverReader { data: &bs, claim };
+                let s = match unsafe { libtw2_buffer::read_buffer_ref(&mut rd, b) } {
+                    Ok(s) => s.to_vec(),
+                    Err(e) => panic!("harness: read_buffer_ref io error {:?}", e),
+                };
+                // not refused: the view was consumed and is released as after an honest read
+                cx.refusal_expected = false;
+                cx.unwinding = None;
+                cx.patch_r(i, "ok");
+                cx.patch_data(i, s);
+                cx.current = None;
+                return Exit::Closed(i);
+            }
+            Op::ReadClose { bs, .. } => {
                 // the view itself (it may already hold bytes) goes to the reader and is consumed
                 let mut rd: &[u8] = &bs;
                 let s = match rd.read_buffer_ref(b) {
@@ -416,6 +480,16 @@ fn run_view<'d, 's>(mut b: BufferRef<'d, 's>, cx: &mut Cx, open_act: Value, dept
                 cx.push(act, Out::ok().data(s));
                 cx.current = None;
                 return Exit::Closed(cx.events.len() - 1);
+            }
+            Op::OverAdvance { n } => {
+                // a count above what is left: advance must refuse (it asserts); the view is used further
+                let r = catch_unwind(AssertUnwindSafe(|| unsafe { b.advance(n) }));
+                let res = if r.is_err() { "refused" } else { "ok" };
+                cx.push(act, Out { r: res, ..Default::default() }.rem(b.remaining()));
+            }
+            Op::Touch { ks } => {
+                touch_chain!((&mut b), &ks);
+                cx.push(act, Out::ok().rem(b.remaining()));
             }
             Op::Close => {
                 cx.push(act, Out::ok().data(Vec::new()));
@@ -441,6 +515,7 @@ fn run_view<'d, 's>(mut b: BufferRef<'d, 's>, cx: &mut Cx, open_act: Value, dept
 }
 
 trait Owner {
+    fn touch(&mut self, ks: &[usize]);
     fn open(&mut self, ks: &[usize], cx: &mut Cx, act: Value) -> Exit;
     fn read(&mut self, bs: &[u8], ks: &[usize]) -> Vec<u8>;
     fn spare(&self) -> usize;
@@ -454,6 +529,9 @@ struct VecOwner {
     cap: usize,
 }
 impl Owner for VecOwner {
+    fn touch(&mut self, ks: &[usize]) {
+        touch_chain!((&mut self.v), ks);
+    }
     fn open(&mut self, ks: &[usize], cx: &mut Cx, act: Value) -> Exit {
         with_chain!(&mut self.v, ks, |b| run_view(b, cx, act, 1))
     }
@@ -480,6 +558,9 @@ struct ArrOwner<A: arrayvec::Array<Item = u8>> {
     v: ArrayVec<A>,
 }
 impl<A: arrayvec::Array<Item = u8>> Owner for ArrOwner<A> {
+    fn touch(&mut self, ks: &[usize]) {
+        touch_chain!((&mut self.v), ks);
+    }
     fn open(&mut self, ks: &[usize], cx: &mut Cx, act: Value) -> Exit {
         with_chain!(&mut self.v, ks, |b| run_view(b, cx, act, 1))
     }
@@ -507,6 +588,10 @@ struct SliceOwner {
     len0: usize,
 }
 impl Owner for SliceOwner {
+    fn touch(&mut self, ks: &[usize]) {
+        let s: &mut [u8] = &mut self.arr[self.len0..];
+        touch_chain!(s, ks);
+    }
     fn open(&mut self, ks: &[usize], cx: &mut Cx, act: Value) -> Exit {
         let s: &mut [u8] = &mut self.arr[self.len0..];
         with_chain!(s, ks, |b| run_view(b, cx, act, 1))
@@ -556,6 +641,12 @@ impl SliceRefOwner {
     }
 }
 impl Owner for SliceRefOwner {
+    fn touch(&mut self, ks: &[usize]) {
+        let mut s: &mut [u8] = unsafe { &mut *self.cur };
+        let p: *mut &mut [u8] = &mut s;
+        touch_chain!((unsafe { &mut *p }), ks);
+        self.cur = unsafe { &mut **p as *mut [u8] };
+    }
     fn open(&mut self, ks: &[usize], cx: &mut Cx, act: Value) -> Exit {
         let mut s: &mut [u8] = unsafe { &mut *self.cur };
         let p: *mut &mut [u8] = &mut s;
@@ -635,7 +726,8 @@ fn top_loop(cx: &mut Cx, owner: &mut dyn Owner) -> bool {
                     }
                     Ok(Exit::EndOfPlan) => return true,
                     Err(p) => {
-                        if p.downcast_ref::<UnwindMarker>().is_some() {
+                        if p.downcast_ref::<UnwindMarker>().is_some() || cx.refusal_expected {
+                            cx.refusal_expected = false;
                             let i = cx.unwinding.take().expect("harness: unwind without event");
                             cx.patch_owner(i, owner.olen(), owner.own());
                         } else {
@@ -652,6 +744,19 @@ fn top_loop(cx: &mut Cx, owner: &mut dyn Owner) -> bool {
                 match r {
                     Ok(data) => {
                         let o = Out { r: "ok", data: Some(data), olen: Some(owner.olen()), own: Some(owner.own()), ..Default::default() };
+                        cx.push(act, o);
+                    }
+                    Err(p) => {
+                        cx.push(act, Out { r: "panic", msg: Some(panic_text(&p)), loc: Some(last_panic_location()), ..Default::default() });
+                        return false;
+                    }
+                }
+            }
+            Op::Touch { ks } => {
+                cx.current = Some(act.clone());
+                match catch_unwind(AssertUnwindSafe(|| owner.touch(&ks))) {
+                    Ok(()) => {
+                        let o = Out { r: "ok", olen: Some(owner.olen()), own: Some(owner.own()), ..Default::default() };
                         cx.push(act, o);
                     }
                     Err(p) => {
@@ -828,6 +933,8 @@ struct Walk<'g> {
     samples: Vec<Value>,
     report: usize,
     want_cover: bool,
+    /// crash journal: the plan about to be executed is written here first (single-threaded runs)
+    journal: Option<std::fs::File>,
     cover_out: Vec<String>,
     cover_plans: u64,
     maximal: u64,
@@ -857,6 +964,14 @@ impl<'g> Walk<'g> {
         }
         let plan: Vec<Op> = full.iter().map(|(s, j)| parse_op(&g.edges[*s][*j].act)).collect();
         let plan_json: Vec<Value> = full.iter().map(|(s, j)| g.edges[*s][*j].act.clone()).collect();
+        if let Some(f) = self.journal.as_mut() {
+            use std::io::{Seek, SeekFrom};
+            let line = Value::Array(plan_json.clone()).to_string();
+            let _ = f.seek(SeekFrom::Start(0));
+            let _ = f.set_len(0);
+            let _ = f.write_all(line.as_bytes());
+            let _ = f.flush();
+        }
         let events = exec_plan(plan);
         self.paths += 1;
         self.steps += events.len() as u64;
@@ -995,6 +1110,7 @@ fn cmd_graph(args: &[String]) {
     let mut threads = 1usize;
     let mut max_paths = u64::MAX;
     let mut count_only = false;
+    let mut journal: Option<String> = None;
     let mut i = 0;
     while i < args.len() {
         match args[i].as_str() {
@@ -1004,6 +1120,7 @@ fn cmd_graph(args: &[String]) {
             "--threads" => { threads = args[i + 1].parse().unwrap(); i += 1; }
             "--max-paths" => { max_paths = args[i + 1].parse().unwrap(); i += 1; }
             "--count" => { count_only = true; }
+            "--journal" => { journal = Some(args[i + 1].clone()); i += 1; }
             _ => {}
         }
         i += 1;
@@ -1085,6 +1202,10 @@ fn cmd_graph(args: &[String]) {
         }
         let next = AtomicUsize::new(0);
         let want_cover = cover.is_some();
+        if journal.is_some() {
+            threads = 1;
+        }
+        let jref = &journal;
         let gref = &g;
         let cref = &covered;
         let tref = &tasks;
@@ -1097,7 +1218,9 @@ fn cmd_graph(args: &[String]) {
                         let mut w = Walk {
                             g: gref, depth, paths: 0, steps: 0, covered: cref, covered_n: 0, mismatch_count: 0,
                             mismatch_keys: BTreeMap::new(), mismatches: Vec::new(), drift_count: 0, drift_keys: BTreeMap::new(),
-                            drifts: Vec::new(), samples: Vec::new(), report, want_cover, cover_out: Vec::new(), cover_plans: 0,
+                            drifts: Vec::new(), samples: Vec::new(), report, want_cover,
+                            journal: jref.as_ref().map(|p| std::fs::File::create(p).expect("journal file")),
+                            cover_out: Vec::new(), cover_plans: 0,
                             maximal: 0, nontrivial: 0,
                         };
                         loop {
@@ -1267,7 +1390,7 @@ fn cmd_drive(args: &[String]) {
 /// Compact plans for the Miri run (no JSON inside the interpreter): one plan per line, operations
 /// separated by ';', numbers by blanks:
 ///   S <kind> <cap> <len0> <mem0...> ; O <ks...> ; W <bs...> ; E <iterator kind 0..3> <bs...> ; A <bs...> ; X <bs...> ;
-///   R <n> <bs (n bytes)...> <ks...> ; Q <bs...> ; C ; I ; U ; F
+///   R <n> <bs (n bytes)...> <ks...> ; Q <claim> <bs...> ; V <n> ; T <ks...> ; C ; I ; U ; F
 fn parse_compact(line: &str) -> Vec<Op> {
     let mut ops = Vec::new();
     for part in line.split(';') {
@@ -1297,7 +1420,9 @@ fn parse_compact(line: &str) -> Vec<Op> {
                 let n = nums[0];
                 Op::Read { bs: bytes(&nums[1..1 + n]), ks: nums[1 + n..].to_vec() }
             }
-            "Q" => Op::ReadClose { bs: bytes(&nums) },
+            "Q" => Op::ReadClose { bs: bytes(&nums[1..]), claim: nums[0] },
+            "V" => Op::OverAdvance { n: nums[0] },
+            "T" => Op::Touch { ks: nums },
             "C" => Op::Close,
             "I" => Op::CloseInit,
             "U" => Op::Unwind,
